@@ -144,9 +144,15 @@ func MonitorC18a(res *Result) []Finding {
 	if calls, bad := per[-1]; bad {
 		fs = append(fs, Finding{"c18:producer:intercepted-again", fmt.Sprintf("interceptors ran %d time(s) on a message the application did not submit (internal marker passing the dispatcher)", len(calls))})
 	}
+	var live []int // positions of the real (non-nil) interceptors, in configuration order
+	for i, ic := range sc.Ics {
+		if !ic.Nil {
+			live = append(live, i)
+		}
+	}
 	for _, m := range sc.Msgs {
 		got := per[m.ID]
-		want := len(sc.Ics)
+		want := len(live)
 		switch {
 		case len(got) > want:
 			fs = append(fs, Finding{"c18:producer:intercepted-again", fmt.Sprintf("message %d: interceptor calls %v, expected each of %d once (a retried message was intercepted again)", m.ID, got, want)})
@@ -154,7 +160,7 @@ func MonitorC18a(res *Result) []Finding {
 			fs = append(fs, Finding{"c18a:interceptor-skipped", fmt.Sprintf("message %d: interceptor calls %v, expected each of %d once (a panicking interceptor must not stop the chain)", m.ID, got, want)})
 		default:
 			for i, k := range got {
-				if k != i {
+				if k != live[i] {
 					fs = append(fs, Finding{"c18a:interceptor-order", fmt.Sprintf("message %d: interceptor calls %v are not in configuration order", m.ID, got)})
 					break
 				}
@@ -162,6 +168,23 @@ func MonitorC18a(res *Result) []Finding {
 		}
 		if len(fs) > 0 {
 			break
+		}
+	}
+	// the order is also visible in what the mutating interceptors did to the message: the header keys "i<k>" of a
+	// record at the broker are in configuration order
+	for key, log := range res.Logs {
+		for _, a := range log {
+			last := -1
+			for _, h := range a.Headers {
+				var k int
+				if n, _ := fmt.Sscanf(h, "i%d", &k); n != 1 {
+					continue
+				}
+				if k <= last && len(fs) == 0 {
+					fs = append(fs, Finding{"c18a:interceptor-order", fmt.Sprintf("message %d in %s: header keys %v show the mutating interceptors ran out of configuration order", a.ID, key, a.Headers)})
+				}
+				last = k
+			}
 		}
 	}
 	// containment: a message whose interceptor panicked still gets its outcome (checked by MonitorC01 too; named here)
